@@ -74,19 +74,23 @@ Qed.
 
 (** the Directives pair: where it ends is one of pest's quirks (after a single directive the following trivia is
     inside the pair, after several it is not), hence existential, but always inside the trivia before [k] *)
+(** the trivia at the end of a directive list that stays outside the Directives pair *)
+Definition dirs_tail (ds : list rdir) : str := match ds with [] => [] | d :: r => tailgap [] (map rdir_item r) end.
+
 Theorem directives_runs d ds k : forallb rdir_wf (d :: ds) = true -> follow_dirs (d :: ds) k ->
-  exists g2 m, ws g2 = true /\ m + slen g2 = slen (dirs_text (d :: ds)) /\
+  let g2 := dirs_tail (d :: ds) in
+  exists m, ws g2 = true /\ m + slen g2 = slen (dirs_text (d :: ds)) /\
     (exists c, dirs_text (d :: ds) = c ++ g2) /\
     forall i, runs G true ANon (Call R_Directives) (dirs_text (d :: ds) ++ k) i
       (Ok (g2 ++ k, i + m, [Pair R_Directives i (i + m) (items_trees (map rdir_item (d :: ds)) i)])).
 Proof.
-  intros Hwf Hf.
+  intros Hwf Hf g2.
   pose proof (dirs_items_ok k (d :: ds) Hwf Hf) as Hok.
   destruct Hf as [Htok [_ [Hat _]]].
-  destruct (items_plus (Call R_Directive) [] k Htok (fun j => directive_fails k j Hat) (rdir_item d) (map rdir_item ds) Hok) as [g2 [m [Hg2 [Hm [[c Hc] Hrun]]]]].
-  exists g2, m. split; [exact Hg2|]. split; [|split].
-  - rewrite Hm. unfold dirs_text. cbn [map items_text]. rewrite !slen_app. lia.
-  - exists c. rewrite <- Hc. reflexivity.
+  destruct (items_plus (Call R_Directive) [] k Htok (fun j => directive_fails k j Hat) (rdir_item d) (map rdir_item ds) Hok) as [m [Hg2 [Hm [[c Hc] Hrun]]]].
+  exists m. split; [exact Hg2|]. split; [|split].
+  - unfold g2, dirs_tail. rewrite Hm. unfold dirs_text. cbn [map items_text]. rewrite !slen_app. lia.
+  - exists c. unfold g2, dirs_tail. rewrite <- Hc. reflexivity.
   - intros i. specialize (Hrun i). cbn [app] in Hrun.
     assert (Htxt : dirs_text (d :: ds) ++ k = it_text (rdir_item d) ++ it_gap (rdir_item d) ++ items_text (map rdir_item ds) ++ k).
     { unfold dirs_text. cbn [map items_text]. rewrite <- !app_assoc. reflexivity. }
@@ -139,7 +143,8 @@ Qed.
 
 (** parse_render for directive lists *)
 Theorem parse_render_directives : forall d ds k, forallb rdir_wf (d :: ds) = true -> follow_dirs (d :: ds) k ->
-  exists g2 m, ws g2 = true /\ m + slen g2 = slen (dirs_text (d :: ds)) /\
+  let g2 := dirs_tail (d :: ds) in
+  exists m, ws g2 = true /\ m + slen g2 = slen (dirs_text (d :: ds)) /\
     forall pre file,
     let inp := pre ++ dirs_text (d :: ds) ++ k in
     let i := slen pre in
@@ -147,7 +152,7 @@ Theorem parse_render_directives : forall d ds k, forallb rdir_wf (d :: ds) = tru
     runs G true ANon (Call R_Directives) (dirs_text (d :: ds) ++ k) i (Ok (g2 ++ k, i + m, [t]))
     /\ exists l, build_directives inp file t = BOk l /\ map dir_erase l = map rdir_erase (d :: ds).
 Proof.
-  intros d ds k Hwf Hf.
-  destruct (directives_runs d ds k Hwf Hf) as [g2 [m [Hg2 [Hm [_ Hrun]]]]].
-  exists g2, m. split; [exact Hg2|]. split; [exact Hm|]. intros pre file inp i t. split; [apply Hrun|apply build_directives_ok].
+  intros d ds k Hwf Hf g2.
+  destruct (directives_runs d ds k Hwf Hf) as [m [Hg2 [Hm [_ Hrun]]]].
+  exists m. split; [exact Hg2|]. split; [exact Hm|]. intros pre file inp i t. split; [apply Hrun|apply build_directives_ok].
 Qed.
